@@ -10,6 +10,7 @@ from ..engine.mutate import Mutant, Variant, in_function, replace_once
 from ..engine.runner import Rule
 from ..engine.source import AnalysisError
 from ..engine.sqlfront import all_where_clauses, split_conjuncts
+from . import shared
 from .common import callee_name, calls_in, kwarg
 
 EXPLANATION = (
@@ -228,26 +229,7 @@ def rule_propagation_chain(ctx):
                 ctx.check(eff == ["file.set_state", "self.mark_consuming_steps_pending"], mo.fq, "BUILT: outdated and consumers re-pended", f"effects {eff}", "recurses into consumers")
             elif st == FS.OUTDATED:
                 ctx.check(eff == [] and s != "raise", mo.fq, "OUTDATED: nothing to do", f"effects {eff}", "no-op")
-    # every Python-level move of a file into the available state BUILT is followed, on the same path and for the
-    # same file, by the consumer notification (it is what clears `deferred` of a step parked on that file)
-    n_built = 0
-    for fi in ctx.prog.all_functions():
-        if "FileState.BUILT" not in fi.module.text:
-            continue
-        sets = [c for c in calls_in(fi.node) if callee_name(c) == "set_state" and len(c.args) >= 1 and ast.unparse(c.args[0]) == "FileState.BUILT"]
-        if not sets:
-            continue
-        for tr, s in flow.paths_of(fi):
-            for k, e in enumerate(tr):
-                if e[0] == "call" and any(e[2] is c for c in sets):
-                    n_built += 1
-                    recv = ast.unparse(e[2].func.value)
-                    later = [x[2] for x in tr[k + 1:] if x[0] == "call" and callee_name(x[2]) == "mark_consuming_steps_pending"]
-                    ok = any(len(c.args) == 1 and ast.unparse(c.args[0]) == recv for c in later)
-                    ctx.check(ok, fi.fq, f"{recv} -> BUILT is followed by mark_consuming_steps_pending({recv})",
-                              "a file is revalidated as BUILT without notifying its consumers: a step deferred on it stays parked", "paired", where=ctx.where_of(fi, e[2]))
-    if n_built == 0:
-        raise AnalysisError("no Python-level set_state(FileState.BUILT) site found (revalidation anchor moved)")
+    shared.check_built_notifies(ctx, "a file is revalidated as BUILT without notifying its consumers: a step deferred on it stays parked")
     mcp = ctx.prog.func("workflow.Workflow.mark_consuming_steps_pending")
     ctx.check("self.mark_step_pending(step)" in ast.unparse(mcp.node), mcp.fq, "re-pends every consuming step", "consumers not re-pended", "mark_step_pending")
     png = ctx.prog.func("workflow.Workflow.persist_nglob_matches")
@@ -292,15 +274,7 @@ def rule_recycle_compare(ctx):
     tr_ = ctx.prog.func("trellis.Trellis.try_recycle")
     src = _norm(ast.unparse(tr_.node))
     ctx.check("if node is None or not detached or (not node.can_recycle(**kwargs)): return None" in src.replace("or not node.can_recycle(**kwargs)", "or (not node.can_recycle(**kwargs))"), tr_.fq, "recycle requires a detached node that accepts the declaration", "try_recycle guard changed", "guarded")
-    ir = ctx.prog.func("file.File.initialize_row")
-    FS = ctx.prog.enum("FileState")
-    for req, old in itertools.product((FS.UNDECLARED, FS.PLANNED, FS.UNCONFIRMED, FS.VOLATILE), (FS.BUILT, FS.OUTDATED, FS.CONFIRMED, None)):
-        row = None if old is None else (old.value, "{}")
-        fp = finite.feasible_paths(ctx.prog, ir, {"state": req}, {"self.db.execute(sql, (self.i,)).fetchone()": row})
-        for trc, s in fp:
-            out = any(e[0] == "call" and e[1].endswith("mark_file_outdated") for e in trc)
-            carried = req in (FS.UNDECLARED, FS.PLANNED) and old == FS.BUILT
-            ctx.check(out == carried, ir.fq, f"requested={req.name} old={old.name if old else 'none'}", "a recycled BUILT output is trusted as up to date (or a fresh row is outdated needlessly)", "carried-over BUILT is outdated" if carried else "no carry-over")
+    shared.check_initialize_row_carry_over(ctx, "a recycled BUILT output is trusted as up to date (or a fresh row is outdated needlessly)")
 
 
 def rule_startup_order(ctx):
